@@ -1,5 +1,5 @@
 import GrinVerif.Drv.Common
-import GrinVerif.Model.Tx
+import GrinVerif.Model.TxBlock
 /-! Driver glue for the `tx` domain (C12): aggregation, cut-through, de-aggregation,
 block → compact block → hydrate.  Lines (see `harness/src/bin/tx.rs`):
 
@@ -15,6 +15,12 @@ block → compact block → hydrate.  Lines (see `harness/src/bin/tx.rs`):
     tx block <prevoff-hex> <rout> <rkern> [i,j,…]  => ok <off> <c|f> [ins] [outs] [kers] | err:<E>
     tx compact <nonce>                      => [outfull] [kernfull] [kernids sorted]
     tx hydrate <nonce> g1;g2;…              => ok same|diff <off> c [ins] [outs] [kers] | err:<E>
+    tx kmeta [feat…] [lock…] [fee…] [excess…] [shift…]  -- per kernel rank: what the validation gates read
+    tx feeof <what> [kers]                  => <fee> <fee_shift> <shifted_fee> <lock_height>
+    tx blockhdr <prev height> <prev total difficulty> <difficulty> => <height> <version> <total difficulty>
+    tx bval <prevoff-hex> <height> <version> <claimed fees> => ok | err:<E>   (Block::validate)
+    tx bvread <height>                      => ok | err:<E>                    (Block::validate_read)
+    tx cbids <block-hash> <nonce> [kernel hashes] => [short ids in kern_ids order]
 -/
 namespace GV.Drv.TxD
 open GV GV.Drv GV.Tx
@@ -25,11 +31,54 @@ structure St where
   okc : Array Nat := #[]
   txs : Array Tx := #[]
   block : Option Block := none
+  /-- per kernel rank -/
+  feat : Array Nat := #[]
+  lock : Array Nat := #[]
+  fee : Array Nat := #[]
+  exc : Array Nat := #[]
+  shift : Array Nat := #[]
+  /-- sum of the (valid) offsets of the transactions the current block was built from -/
+  bodyOff : Nat := 0
 
 def St.keys (st : St) : Keys where
   ik := fun c => st.ik.getD c c
   ok := fun o => if o % 2 == 0 then st.okp.getD (o / 2) o else st.okc.getD (o / 2) o
   kk := fun k => k / 2
+
+def St.kmeta (st : St) : KMeta where
+  feat := fun k => st.feat.getD (k / 2) 0
+  lock := fun k => st.lock.getD (k / 2) 0
+  fee := fun k => st.fee.getD (k / 2) 0
+  excess := fun k => st.exc.getD (k / 2) 0
+  shift := fun k => st.shift.getD (k / 2) 0
+
+def showBErr : BErr → String
+  | .tooHeavy => "TooHeavy"
+  | .nrdDup => "NrdDup"
+  | .sort => "Sort"
+  | .dup => "Dup"
+  | .cutThrough => "CutThrough"
+  | .outputFeatures => "OutputFeatures"
+  | .kernelFeatures => "KernelFeatures"
+  | .kernelLockHeight h => s!"KernelLockHeight({h})"
+  | .nrdNotEnabled => "NRDKernelNotEnabled"
+  | .nrdPreHF3 => "NRDKernelPreHF3"
+  | .coinbaseSum => "CoinbaseSumMismatch"
+  | .kernelSum => "KernelSumMismatch"
+  | .secp => "Secp"
+
+def showBRes : Option BErr → String
+  | none => "ok"
+  | some e => "err:" ++ showBErr e
+
+/-- the harness runs on the testing chain with the NRD feature flag on -/
+def CT : Cons.ChainType := .automatedTesting
+
+/-- `(hash, nonce).hash()`: blake2b of the 32 hash bytes and the big-endian nonce; `k0`, `k1` are
+the first two little-endian words -/
+def sipKeys (blockHash : Bytes) (nonce : Nat) : Nat × Nat :=
+  let d := h256 (blockHash ++ beBytes 8 nonce)
+  (ofLE (d.take 8), ofLE ((d.drop 8).take 8))
 
 def showErr : Err → String
   | .cutThrough => "CutThrough"
@@ -89,6 +138,41 @@ def handle (st : St) (args : List String) (impl : String) : St × Verdict :=
     | some a, some b, some c =>
       ({ ik := a.toArray, okp := b.toArray, okc := c.toArray, txs := #[], block := none }, .ok)
     | _, _, _ => (st, .unknown)
+  | ["kmeta", _, a, b, c, d, e] =>
+    match parseNatList a, parseNatList b, parseNatList c, parseNatList d, parseNatList e with
+    | some a, some b, some c, some d, some e =>
+      ({ st with feat := a.toArray, lock := b.toArray, fee := c.toArray, exc := d.toArray, shift := e.toArray }, .ok)
+    | _, _, _, _, _ => (st, .unknown)
+  -- fee(), fee_shift(), shifted_fee(), lock_height() of a body with the given kernels: fixed by
+  -- the kernels alone (the aggregate's are those of the union)
+  | ["feeof", _, _, ks] =>
+    match parseNatList ks with
+    | some ks =>
+      let M := st.kmeta
+      (st, cmpSpec s!"{totalFees M ks} {bodyFeeShift M ks} {shiftedFee M ks} {lockHeight M ks}" impl)
+    | none => (st, .unknown)
+  | ["blockhdr", _, ph, ptd, d] =>
+    match nat? ph, nat? ptd, nat? d with
+    | some ph, some ptd, some d =>
+      let h := fromRewardHeader CT ph ptd d
+      (st, cmpModel s!"{h.height} {h.version} {h.totalDifficulty}" impl)
+    | _, _, _ => (st, .unknown)
+  | ["bval", _, prev, height, version, fees] =>
+    match parseHex prev, nat? height, nat? version, nat? fees, st.block with
+    | some prev, some height, some version, some fees, some b =>
+      (st, cmpModel (showBRes (blockValidate K st.kmeta CT true b ⟨height, version, 0⟩ (ofBE prev) fees st.bodyOff)) impl)
+    | _, _, _, _, _ => (st, .unknown)
+  | ["bvread", _, height] =>
+    match nat? height, st.block with
+    | some height, some b =>
+      (st, cmpModel (showBRes (blockValidateRead K st.kmeta CT true b ⟨height, 0, 0⟩)) impl)
+    | _, _ => (st, .unknown)
+  | ["cbids", _, bh, nonce, khs] =>
+    match parseHex bh, nat? nonce, parseHexList khs with
+    | some bh, some nonce, some khs =>
+      let (k0, k1) := sipKeys bh nonce
+      (st, cmpSpec (showHexList (kernIdsOf h256 k0 k1 khs)) impl)
+    | _, _, _ => (st, .unknown)
   | ["def", _, i, off, v, ins, outs, kers] =>
     match nat? i, parseHex off, parseNatList ins, parseNatList outs, parseNatList kers with
     | some i, some off, some ins, some outs, some kers =>
@@ -99,10 +183,7 @@ def handle (st : St) (args : List String) (impl : String) : St × Verdict :=
   | ["vread", _, i] =>
     match (nat? i).bind (fun i => st.txs[i]?) with
     | some t =>
-      let r := match validateRead K t with
-        | none => "ok"
-        | some e => "err:" ++ showVErr e
-      (st, cmpModel r impl)
+      (st, cmpModel (showBRes (validateReadFull K st.kmeta CT true t)) impl)
     | none => (st, .unknown)
   | ["agg", _, idx] =>
     match (parseNatList idx).bind st.getTxs with
@@ -145,7 +226,9 @@ def handle (st : St) (args : List String) (impl : String) : St × Verdict :=
     | some prev, some rout, some rkern, some txs =>
       match fromReward K (ofBE prev) txs rout rkern with
       | .error e => ({ st with block := none }, cmpModel ("err:" ++ showErr e) impl)
-      | .ok b => ({ st with block := some b }, cmpModel ("ok " ++ showBlock b) impl)
+      | .ok b =>
+        ({ st with block := some b, bodyOff := scalarSum (toSecrets (txs.map (·.offset))) [] },
+          cmpModel ("ok " ++ showBlock b) impl)
     | _, _, _, _ => (st, .unknown)
   | ["compact", _, nonce] =>
     match nat? nonce, st.block with
